@@ -259,6 +259,12 @@ class Evaluator:
             return node[1]
         if k == "var":
             return self.var(node[1], env, fn)
+        if k == "str":
+            import json as _json
+            try:
+                return _json.loads(node[1]) if node[1].startswith('"') else node[1][1:-1]
+            except ValueError:
+                return node[1]
         if k == "cast":
             x = self.ev(node[1], env, fn)
             if isinstance(x, bool):
@@ -356,6 +362,15 @@ class Evaluator:
         if name in ("Add", "Sub", "Mul") and n == 2:
             op = {"Add": lambda a, b: a + b, "Sub": lambda a, b: a - b, "Mul": lambda a, b: a * b}[name]
             return guard(ints, lambda args, fn: ("checked", op(int(args[0]), int(args[1]))))
+        if name in ("add", "sub", "mul") and n == 2 and re.search(r"(^|::)(add|sub|mul)$", full):
+            # operator traits on integers (`a - &b`)
+            def arith(args, fn):
+                a, b = int(args[0]), int(args[1])
+                r = a + b if name == "add" else a - b if name == "sub" else a * b
+                if r < 0:
+                    raise Unmodelled("%s: %s(%d, %d) is negative (an overflow trap on unsigned values)" % (fn.id, name, a, b))
+                return r
+            return guard(lambda a: ints(a) and not any(isinstance(x, bool) for x in a), arith)
         if name in ("Div", "Rem") and n == 2:
             def divrem(args, fn):
                 a, b = int(args[0]), int(args[1])
@@ -381,6 +396,50 @@ class Evaluator:
             return guard(ints, lambda args, fn: op(args[0], args[1]))
         if name == "Not" and n == 1:
             return guard(ints, lambda args, fn: (not args[0]) if isinstance(args[0], bool) else ~args[0])
+        if full == "closure" and n >= 1:
+            return lambda args, fn: ("closure", args[0], list(args[1:]))
+        isclo = lambda v: isinstance(v, tuple) and v and v[0] == "closure"
+        if name in ("call", "call_once", "call_mut") and n == 2:
+            return guard(lambda args: isclo(args[0]) and isinstance(args[1], tuple) and args[1][0] == "tuple", lambda args, fn: self.apply(args[0], args[1][1], fn))
+        optfirst = lambda args: args[0] is None or (isinstance(args[0], tuple) and args[0] and args[0][0] == "some")
+        if full.endswith("Option::or_else") and n == 2:
+            return guard(lambda a: optfirst(a) and isclo(a[1]), lambda args, fn: args[0] if args[0] is not None else self.apply(args[1], [], fn))
+        if full.endswith("Option::unwrap_or_else") and n == 2:
+            return guard(lambda a: optfirst(a) and isclo(a[1]), lambda args, fn: args[0][1] if args[0] is not None else self.apply(args[1], [], fn))
+        if full.endswith("Option::map") and n == 2:
+            return guard(lambda a: optfirst(a) and isclo(a[1]), lambda args, fn: None if args[0] is None else ("some", self.apply(args[1], [args[0][1]], fn)))
+        if full.endswith("Option::and_then") and n == 2:
+            return guard(lambda a: optfirst(a) and isclo(a[1]), lambda args, fn: None if args[0] is None else self.apply(args[1], [args[0][1]], fn))
+        if full.endswith("Option::filter") and n == 2:
+            return guard(lambda a: optfirst(a) and isclo(a[1]), lambda args, fn: args[0] if args[0] is not None and self.apply(args[1], [args[0][1]], fn) else None)
+        if full.endswith("Option::is_some_and") and n == 2:
+            return guard(lambda a: optfirst(a) and isclo(a[1]), lambda args, fn: args[0] is not None and bool(self.apply(args[1], [args[0][1]], fn)))
+        if full.endswith("Option::map_or") and n == 3:
+            return guard(lambda a: optfirst(a) and isclo(a[2]), lambda args, fn: args[1] if args[0] is None else self.apply(args[2], [args[0][1]], fn))
+        if full.endswith("Option::or") and n == 2:
+            return guard(optfirst, lambda args, fn: args[0] if args[0] is not None else args[1])
+        if name == "checked_sub" and n == 2:
+            return guard(ints, lambda args, fn: ("some", args[0] - args[1]) if args[0] >= args[1] else None)
+        if name == "saturating_sub" and n == 2:
+            return guard(ints, lambda args, fn: max(args[0] - args[1], 0))
+        if name == "div_ceil" and n == 2:
+            def div_ceil(args, fn):
+                if args[1] <= 0 or args[0] < 0:
+                    raise Unmodelled("%s: div_ceil(%r, %r)" % (fn.id, args[0], args[1]))
+                return -(-args[0] // args[1])
+            return guard(ints, div_ceil)
+        if name in ("try_into", "try_from") and n == 2 and True:
+            def conv(args, fn):
+                target = str(args[1]).strip("'\"")
+                r = terms.INT_RANGE.get(target)
+                a = self.prog.adts.get(target)
+                if r is None and a is not None and a["variants"] and not any(v["fields"] for v in a["variants"]) and isinstance(args[0], int):
+                    discrs = a["discrs"] or list(range(len(a["variants"])))
+                    return ("some", int(args[0])) if args[0] in discrs else None
+                if r is None or not isinstance(args[0], int):
+                    raise Unmodelled("%s: %s to %r" % (fn.id, name, args[1]))
+                return ("some", int(args[0])) if r[0] <= args[0] <= r[1] else None
+            return conv
         if name == "array":
             return lambda args, fn: list(args)
         if name == "tuple":
@@ -402,7 +461,8 @@ class Evaluator:
         if name in ("from", "into") and n == 1:
             return guard(ints, lambda args, fn: args[0])
         if name in ("try_into", "try_from") and n == 1:
-            return guard(ints, lambda args, fn: ("some", args[0]))
+            # no target type known (shape not taken in path mode): only values every integer type holds
+            return guard(lambda a: ints(a) and 0 <= a[0] <= 127, lambda args, fn: ("some", args[0]))
         isrange = lambda args: isinstance(args[0], tuple) and args[0] and args[0][0] == "range"
         if full.endswith("RangeInclusive::start") and n == 1:
             return guard(isrange, lambda args, fn: args[0][1])
@@ -466,6 +526,13 @@ class Evaluator:
         if callee is not None:
             return lambda args, fn: self.run(callee, args)
         return unmodelled
+
+    def apply(self, clo, args, fn):
+        """Call a closure value ("closure", def id, captures) of /repo."""
+        callee = self.prog.fns.get(clo[1])
+        if callee is None:
+            raise Unmodelled("%s: closure %s has no body in the facts" % (fn.id, clo[1]))
+        return self.run(callee, [("tuple", list(clo[2]))] + list(args))
 
     @staticmethod
     def _is_date(v):
